@@ -5,8 +5,13 @@
 // rule sets is built for each history; after every request the RateLimiterResult found in
 // the context (ruleset type, description, limiter) is reported.
 //
-// mode "bursts": bursts of requests under one fixed rule, with the harness clock read
-// before and after every call, for spec/RateLimitTrace.tla.
+// The harness clock is read before and after every request (tb, ta) and the limiter's
+// own rule (burst, per) is taken from the RateLimiterResult, for spec/RateLimitTrace.tla.
+//
+// mode "bursts": bursts of requests during which one rule (limit, burst) stays in force
+// while the harness perturbs everything else - the suffrage state hash, rule sets replaced
+// by equal ones, the type of the picked rule flipping between rule sets that hold the same
+// rule, traffic of other limiter instances - in the trace format of spec/RateLimitTrace.tla.
 package c36
 
 import (
@@ -18,6 +23,7 @@ import (
 	"os"
 	"strconv"
 	"strings"
+	"sync"
 	"time"
 
 	"github.com/spikeekips/mitum/base"
@@ -47,8 +53,13 @@ type ruleMap map[string]int // handler -> burst, 0 = no rule
 func (m ruleMap) real() launch.RateLimiterRuleMap {
 	r := map[string]launch.RateLimiterRule{}
 	for hd, b := range m {
-		if b > 0 {
+		switch {
+		case b > 0:
 			r[hd] = launch.NewRateLimiterRule(per, b)
+		case b == -1: // rejects everything
+			r[hd] = launch.LimitRateLimiterRule()
+		case b == -2:
+			r[hd] = launch.NoLimitRateLimiterRule()
 		}
 	}
 	return launch.NewRateLimiterRuleMap(nil, r)
@@ -87,6 +98,9 @@ type obs struct {
 	Desc    string `json:"desc"` // client id / net name / ""
 	Limiter string `json:"limiter"`
 	Allowed bool   `json:"allowed"`
+	PerNs   int64  `json:"per_ns,omitempty"` // the limiter's period for `burst` tokens, as it reports it
+	Tb      int64  `json:"tb"`               // harness clock before / after the call, ns since the start of the history
+	Ta      int64  `json:"ta"`
 	Added   *bool  `json:"added,omitempty"`
 	Err     string `json:"err,omitempty"`
 }
@@ -215,12 +229,26 @@ func descOf(t, d string) string {
 	}
 }
 
+// the limiter as humanizeRateLimiter prints it: "<burst>/<duration>", "0" (rejects everything) = -1, "nolimit" = -2
 func burstOf(limiter string) int {
 	if i := strings.Index(limiter, "/"); i > 0 {
 		n, _ := strconv.Atoi(limiter[:i])
 		return n
 	}
-	return -1 // "nolimit" / "0"
+	if limiter == "nolimit" {
+		return -2
+	}
+	return -1
+}
+
+func perOf(limiter string) time.Duration {
+	if i := strings.Index(limiter, "/"); i > 0 {
+		d, err := time.ParseDuration(limiter[i+1:])
+		if err == nil {
+			return d
+		}
+	}
+	return 0
 }
 
 func (w *world) request(addr *net.UDPAddr, hd, cid string) (launch.RateLimiterResult, bool, error) {
@@ -241,6 +269,7 @@ func (w *world) request(addr *net.UDPAddr, hd, cid string) (launch.RateLimiterRe
 }
 
 func (w *world) play(hist []action, res *result) error {
+	start := time.Now()
 	for i, a := range hist {
 		tick()
 		switch a.A {
@@ -296,14 +325,17 @@ func (w *world) play(hist []action, res *result) error {
 			res.Calls++
 			res.Obs = append(res.Obs, obs{Step: i, Added: &added})
 		case "Request":
+			tb := time.Since(start)
 			r, allowed, err := w.request(addrs[a.Addr], a.H, a.C)
+			ta := time.Since(start)
 			res.Calls++
 			if err != nil {
 				res.Obs = append(res.Obs, obs{Step: i, Err: err.Error()})
 				continue
 			}
 			res.Obs = append(res.Obs, obs{Step: i, Type: r.RulesetType, Burst: burstOf(r.Limiter), Limiter: r.Limiter,
-				Desc: descOf(r.RulesetType, r.RulesetDesc), Allowed: allowed})
+				Desc: descOf(r.RulesetType, r.RulesetDesc), Allowed: allowed, PerNs: int64(perOf(r.Limiter)),
+				Tb: int64(tb), Ta: int64(ta)})
 		default:
 			return fmt.Errorf("unknown action %q", a.A)
 		}
@@ -325,95 +357,226 @@ func run(args []string) error {
 		n, _ := strconv.Atoi(fl["n"])
 		return bursts(n, out)
 	}
+	// the histories are independent (one handler each): replay them by batches on several goroutines,
+	// results in the order of the input
 	i := 0
-	return h.ReadNDJSON(fl["in"], func(line []byte) error {
+	var batch [][]action
+	flush := func() error {
+		results := make([]result, len(batch))
+		errs := make([]error, len(batch))
+		var wg sync.WaitGroup
+		next := make(chan int)
+		for g := 0; g < 8; g++ {
+			wg.Add(1)
+			go func() {
+				defer wg.Done()
+				for k := range next {
+					res := result{I: i + k + 1, Obs: []obs{}}
+					w, err := newWorld()
+					if err != nil {
+						errs[k] = err
+						continue
+					}
+					res.Panic = h.Catch(func() { errs[k] = w.play(batch[k], &res) })
+					results[k] = res
+				}
+			}()
+		}
+		for k := range batch {
+			next <- k
+		}
+		close(next)
+		wg.Wait()
+		for k := range batch {
+			if errs[k] != nil {
+				return errs[k]
+			}
+			out.Emit(results[k])
+		}
+		i += len(batch)
+		batch = batch[:0]
+		return nil
+	}
+	if err := h.ReadNDJSON(fl["in"], func(line []byte) error {
 		var hist []action
 		if err := json.Unmarshal(line, &hist); err != nil {
 			return err
 		}
-		i++
-		res := result{I: i, Obs: []obs{}}
-		w, err := newWorld()
-		if err != nil {
-			return err
+		batch = append(batch, hist)
+		if len(batch) >= 4000 {
+			return flush()
 		}
-		var perr error
-		res.Panic = h.Catch(func() { perr = w.play(hist, &res) })
-		if perr != nil {
-			return perr
-		}
-		out.Emit(res)
 		return nil
-	})
+	}); err != nil {
+		return err
+	}
+	return flush()
 }
 
 // ---------------------------------------------------------------- enforcement
 
-type burstLine struct {
-	Burst int      `json:"burst"`
-	Per   int64    `json:"per"` // microseconds (TLC integers are 32 bit)
-	Kind  string   `json:"kind"`
-	ObsR  []obsRec `json:"obs"`
-	Rule  string   `json:"rule"`
-	Src   string   `json:"src"`
+// one recorded execution as spec/RateLimitTrace.tla reads it: per limiter instance the calls
+// [burst, per, tb, ta, ok, step] in call order. Times in microseconds: tb rounded down, ta up (the
+// window only grows), per down (a shorter period is a higher rate: the bound only gets weaker).
+type traceLine struct {
+	Src           string      `json:"src"`
+	Insts         [][][]int64 `json:"insts"`
+	Names         []string    `json:"names"`
+	Rule          string      `json:"rule"`
+	Where         string      `json:"where"`   // the rule set that gives the main instance its rule
+	Perturb       string      `json:"perturb"` // what changes between the calls
+	Calls         int         `json:"calls"`
+	Allowed       int         `json:"allowed"`
+	Perturbations int         `json:"perturbations"`
 }
 
-// microseconds since the start of the burst: tb rounded down, ta rounded up (the window only grows)
-type obsRec struct {
-	Tb int64 `json:"tb"`
-	Ta int64 `json:"ta"`
-	OK int   `json:"ok"`
+type burstWorld struct {
+	*world
+	m   launch.RateLimiterRuleMap
+	cid string
 }
 
-// one burst: a fresh handler whose rule for the request is `rule` (placed in the rule set `src`),
-// calls as fast as possible with random short pauses, for about `span`.
-func oneBurst(rng *rand.Rand, rule launch.RateLimiterRule, kind string, burst int, d time.Duration, src string, maxCalls int, span time.Duration) (burstLine, error) {
-	w, err := newWorld()
-	if err != nil {
-		return burstLine{}, err
-	}
-	m := launch.NewRateLimiterRuleMap(&rule, nil)
-	cid := ""
-	switch src {
+// install (on) or take away (off) the rule set `kind`; every rule set holds the same rule map
+func (b *burstWorld) install(kind string, on bool) error {
+	switch kind {
 	case "defaultmap":
-		err = w.rules.SetDefaultRuleMap(m)
+		return b.rules.SetDefaultRuleMap(b.m)
 	case "clientid":
-		cid = "cx"
-		err = w.rules.SetClientIDRuleSet(launch.NewClientIDRateLimiterRuleSet(map[string]launch.RateLimiterRuleMap{"cx": m}))
+		if !on {
+			return b.rules.SetClientIDRuleSet(nil)
+		}
+		return b.rules.SetClientIDRuleSet(launch.NewClientIDRateLimiterRuleSet(map[string]launch.RateLimiterRuleMap{"cx": b.m}))
 	case "net":
+		if !on {
+			return b.rules.SetNetRuleSet(nil)
+		}
 		rs := launch.NewNetRateLimiterRuleSet()
 		_, ipnet, _ := net.ParseCIDR(netsCIDR["N1"])
-		rs.Add(ipnet, m)
-		err = w.rules.SetNetRuleSet(rs)
+		rs.Add(ipnet, b.m)
+		return b.rules.SetNetRuleSet(rs)
+	case "node":
+		if !on {
+			return b.rules.SetNodeRuleSet(nil)
+		}
+		return b.rules.SetNodeRuleSet(launch.NewNodeRateLimiterRuleSet(map[string]launch.RateLimiterRuleMap{node("n1").String(): b.m}))
+	case "suffrage": // on / off = the node is / is not a consensus node (a new suffrage state either way)
+		if on {
+			b.setMembers([]string{"n1"}, b.hash+1)
+		} else {
+			b.setMembers(nil, b.hash+1)
+		}
+		return nil
 	}
+	return fmt.Errorf("rule set %q?", kind)
+}
+
+// one burst: a fresh handler; the rule for the request stands in the rule set `where` AND in the
+// default map, so that the rule in force (limit, burst) is the same whatever rule set is picked;
+// calls as fast as possible with random short pauses, for about `span`; between the calls
+// perturbations of the family `perturb`.
+func oneBurst(rng *rand.Rand, rule launch.RateLimiterRule, d time.Duration, where, perturb string, maxCalls int, span time.Duration) (traceLine, error) {
+	line := traceLine{Src: "burst", Rule: rule.String(), Where: where, Perturb: perturb, Names: []string{"a1/hx"}, Insts: [][][]int64{{}}}
+	w, err := newWorld()
 	if err != nil {
-		return burstLine{}, err
+		return line, err
 	}
+	b := &burstWorld{world: w, m: launch.NewRateLimiterRuleMap(&rule, nil)}
+	if err := b.install("defaultmap", true); err != nil {
+		return line, err
+	}
+	if where == "clientid" || (where == "defaultmap" && perturb == "type-flip") {
+		b.cid = "cx"
+	}
+	if where == "suffrage" {
+		if err := b.rules.SetSuffrageRuleSet(launch.NewSuffrageRateLimiterRuleSet(b.m)); err != nil {
+			return line, err
+		}
+	}
+	if where != "defaultmap" {
+		if err := b.install(where, true); err != nil {
+			return line, err
+		}
+	}
+	flipKind, flipOn := where, true
+	if where == "defaultmap" {
+		flipKind, flipOn = "clientid", false
+	}
+	needNode := where == "node" || where == "suffrage"
+	inst := map[string]int{"a1/hx": 0}
 	tick()
-	line := burstLine{Burst: burst, Per: int64(d / time.Microsecond), Kind: kind, Rule: fmt.Sprintf("%d/%s", burst, d), Src: src}
 	start := time.Now()
-	for c := 0; c < maxCalls; c++ {
+	call := func(addr, hd string) (launch.RateLimiterResult, error) {
 		tb := time.Since(start)
-		r, allowed, err := w.request(addrs["a1"], "hx", cid)
+		r, allowed, err := w.request(addrs[addr], hd, b.cid)
 		ta := time.Since(start)
+		if err != nil {
+			return r, err
+		}
+		k, found := inst[addr+"/"+hd]
+		if !found {
+			k = len(line.Insts)
+			inst[addr+"/"+hd] = k
+			line.Insts = append(line.Insts, [][]int64{})
+			line.Names = append(line.Names, addr+"/"+hd)
+		}
+		ok := int64(0)
+		if allowed {
+			ok = 1
+			line.Allowed++
+		}
+		line.Calls++
+		line.Insts[k] = append(line.Insts[k], []int64{int64(burstOf(r.Limiter)), int64(perOf(r.Limiter) / time.Microsecond),
+			int64(tb / time.Microsecond), int64((ta + time.Microsecond - 1) / time.Microsecond), ok, int64(line.Calls)})
+		return r, nil
+	}
+	for c := 0; c < maxCalls; c++ {
+		if c >= 2 && rng.Intn(3) == 0 {
+			var err error
+			switch perturb {
+			case "hash": // a new suffrage state, the consensus nodes stay
+				w.hash++
+			case "equal-sets": // a rule set is replaced by an equal one
+				kinds := []string{"defaultmap", where}
+				if where == "suffrage" {
+					err = b.rules.SetSuffrageRuleSet(launch.NewSuffrageRateLimiterRuleSet(b.m))
+				} else {
+					err = b.install(kinds[rng.Intn(2)], true)
+				}
+			case "type-flip": // the picked rule set changes, the rule does not
+				flipOn = !flipOn
+				err = b.install(flipKind, flipOn)
+			case "other-traffic":
+				if _, err = call([]string{"a2", "a1", "a3"}[rng.Intn(3)], []string{"hy", "hy", "hx"}[rng.Intn(3)]); err != nil {
+					return line, err
+				}
+			}
+			if err != nil {
+				return line, err
+			}
+			if perturb != "none" {
+				line.Perturbations++
+				tick()
+			}
+		}
+		r, err := call("a1", "hx")
 		if err != nil {
 			return line, err
 		}
-		if c == 0 && r.RulesetType != src {
-			return line, fmt.Errorf("burst under %s rule: limiter of type %q", src, r.RulesetType)
+		if c == 0 && needNode {
+			if !w.handler.AddNode(addrs["a1"], node("n1")) {
+				return line, fmt.Errorf("AddNode failed")
+			}
 		}
-		ok := 0
-		if allowed {
-			ok = 1
+		if (c == 1 && needNode || c == 0 && !needNode) && r.RulesetType != where && !(where == "defaultmap" && r.RulesetType == "default") {
+			return line, fmt.Errorf("burst under the %s rule set: limiter of type %q", where, r.RulesetType)
 		}
-		line.ObsR = append(line.ObsR, obsRec{Tb: int64(tb / time.Microsecond), Ta: int64((ta + time.Microsecond - 1) / time.Microsecond), OK: ok})
-		if ta > span {
+		if time.Since(start) > span && c >= 12 { // at least a dozen calls, however slow the machine is
 			break
 		}
 		switch rng.Intn(6) {
 		case 0:
-			if burst > 0 {
-				time.Sleep(time.Duration(rng.Int63n(int64(d)/int64(burst)*2 + 1)))
+			if rule.Burst > 0 {
+				time.Sleep(time.Duration(rng.Int63n(int64(d)/int64(rule.Burst)*2 + 1)))
 			}
 		case 1:
 			time.Sleep(time.Duration(rng.Intn(200)) * time.Microsecond)
@@ -431,7 +594,13 @@ func bursts(n int, out *h.Out) error {
 	}
 	specs := []spec{{1, 10 * time.Millisecond}, {5, 50 * time.Millisecond}, {20, 100 * time.Millisecond}, {3, time.Second},
 		{2, 3 * time.Millisecond}, {40, 20 * time.Millisecond}, {7, 70 * time.Millisecond}, {33, 3 * time.Second}}
-	srcs := []string{"defaultmap", "clientid", "net"}
+	// (rule set, perturbation): the first ones are run by the quick tier
+	combos := [][2]string{{"suffrage", "hash"}, {"defaultmap", "none"}, {"clientid", "equal-sets"}, {"net", "type-flip"},
+		{"node", "equal-sets"}, {"suffrage", "type-flip"}, {"clientid", "type-flip"}, {"net", "other-traffic"},
+		{"node", "type-flip"}, {"suffrage", "equal-sets"}, {"defaultmap", "type-flip"}, {"clientid", "none"},
+		{"suffrage", "other-traffic"}, {"net", "equal-sets"}, {"node", "hash"}, {"defaultmap", "equal-sets"},
+		{"net", "none"}, {"suffrage", "none"}, {"node", "none"}, {"clientid", "other-traffic"}, {"defaultmap", "other-traffic"},
+		{"node", "other-traffic"}, {"clientid", "hash"}}
 	for i := 0; i < n; i++ {
 		s := specs[i%len(specs)]
 		if i >= len(specs) {
@@ -441,18 +610,19 @@ func bursts(n int, out *h.Out) error {
 		if span > 250*time.Millisecond {
 			span = 250 * time.Millisecond
 		}
-		line, err := oneBurst(rng, launch.NewRateLimiterRule(s.d, s.burst), "limit", s.burst, s.d, srcs[i%3], 140, span)
+		c := combos[i%len(combos)]
+		line, err := oneBurst(rng, launch.NewRateLimiterRule(s.d, s.burst), s.d, c[0], c[1], 140, span)
 		if err != nil {
 			return err
 		}
 		out.Emit(line)
 	}
-	z, err := oneBurst(rng, launch.LimitRateLimiterRule(), "zero", 0, time.Second, "defaultmap", 50, 20*time.Millisecond)
+	z, err := oneBurst(rng, launch.LimitRateLimiterRule(), time.Second, "defaultmap", "equal-sets", 50, 20*time.Millisecond)
 	if err != nil {
 		return err
 	}
 	out.Emit(z)
-	nl, err := oneBurst(rng, launch.NoLimitRateLimiterRule(), "nolimit", 0, time.Second, "defaultmap", 50, 20*time.Millisecond)
+	nl, err := oneBurst(rng, launch.NoLimitRateLimiterRule(), time.Second, "defaultmap", "equal-sets", 50, 20*time.Millisecond)
 	if err != nil {
 		return err
 	}
